@@ -98,7 +98,7 @@ Section Fwd.
       destruct (offset >=? ls') eqn:Eo; [simpl; status_ne|].
       rewrite Z.geb_leb in Eo. apply Z.leb_gt in Eo.
       rewrite get_position_ok. cbn [bind].
-      rewrite set_position_spec. cbn [bind].
+      rewrite (set_position_spec c2 offset Hc2). cbn [bind].
       assert (Hl2 : c_len c2 = c_len c0) by (destruct Hsb01, Hsb2; congruence).
       destruct (offset >? c_len c2) eqn:Eg; cbn [fst snd negb]; [simpl; status_ne|].
       rewrite Z.gtb_ltb in Eg. apply Z.ltb_ge in Eg.
@@ -179,7 +179,7 @@ Proof.
     destruct (ns_save st =? 0) eqn:Es; cbn [negb].
     + apply Z.eqb_eq in Es. simpl. auto.
     + apply Z.eqb_neq in Es.
-      rewrite set_position_spec. cbn [bind safe fst snd].
+      rewrite (set_position_spec _ _ Hcs). cbn [bind safe fst snd].
       assert (Hl : c_len (ns_cur st) = c_len c) by apply Hsb.
       destruct (ns_save st >? c_len (ns_cur st)) eqn:E; cbn [snd].
       * rewrite Z.gtb_ltb in E. apply Z.ltb_lt in E. lia.
@@ -227,9 +227,9 @@ Proof.
   destruct ((enc <? 0) || (enc >=? alen)) eqn:E; [simpl; status_ne|].
   apply orb_false_elim in E. destruct E as [E1 E2].
   apply Z.ltb_ge in E1. rewrite Z.geb_leb in E2. apply Z.leb_gt in E2.
-  set (buf := mkCur abuf alen 0).
+  set (buf := mkCur abuf alen 0 abuf).
   assert (Hbuf : cur_ok buf) by (repeat split; simpl; lia).
-  unfold checked. rewrite set_position_spec. cbn [bind fst snd].
+  unfold checked. rewrite (set_position_spec _ _ Hbuf). cbn [bind fst snd].
   destruct (enc >? c_len buf) eqn:Eg; [simpl in Eg; rewrite Z.gtb_ltb in Eg; apply Z.ltb_lt in Eg; lia|].
   cbn [fst snd]. replace (ARES_SUCCESS =? ARES_SUCCESS) with true by (symmetry; apply Z.eqb_refl).
   assert (Hc : cur_ok (set_off buf enc)) by (apply cur_ok_set_off; [assumption | simpl; lia]).
@@ -265,11 +265,11 @@ Proof.
   destruct ((enc <? 0) || (enc >=? alen)) eqn:E; [simpl; status_ne|].
   apply orb_false_elim in E. destruct E as [E1 E2].
   apply Z.ltb_ge in E1. rewrite Z.geb_leb in E2. apply Z.leb_gt in E2.
-  set (buf := mkCur abuf alen 0).
+  set (buf := mkCur abuf alen 0 abuf).
   assert (Hbuf : cur_ok buf).
   { repeat split; simpl; try lia. }
   apply to_badstr_safe.
-  unfold checked. rewrite set_position_spec. cbn [bind fst snd].
+  unfold checked. rewrite (set_position_spec _ _ Hbuf). cbn [bind fst snd].
   destruct (enc >? c_len buf) eqn:Eg; [simpl in Eg; rewrite Z.gtb_ltb in Eg; apply Z.ltb_lt in Eg; lia|].
   cbn [fst snd]. replace (ARES_SUCCESS =? ARES_SUCCESS) with true by (symmetry; apply Z.eqb_refl).
   assert (Hc : cur_ok (set_off buf enc)) by (apply cur_ok_set_off; [assumption | simpl; lia]).
